@@ -33,7 +33,7 @@ from collada.common import DaeObject
 from collada.common import DaeUnsupportedError
 from collada.common import E
 from collada.common import tag
-from collada.util import toUnitVec
+from collada.util import toUnitVec, _syncChildren
 from collada.xmlutil import etree as ElementTree
 
 
@@ -402,17 +402,9 @@ class Node(SceneNode):
         if self.name is not None:
             self.xmlnode.set('name', self.name)
 
-        for t in self.transforms:
-            if t.xmlnode not in self.xmlnode:
-                self.xmlnode.append(t.xmlnode)
-        for c in self.children:
-            if c.xmlnode not in self.xmlnode:
-                self.xmlnode.append(c.xmlnode)
-        xmlnodes = [c.xmlnode for c in self.children]
-        xmlnodes.extend([t.xmlnode for t in self.transforms])
-        for n in list(self.xmlnode):
-            if n not in xmlnodes:
-                self.xmlnode.remove(n)
+        xmlnodes = [t.xmlnode for t in self.transforms]
+        xmlnodes.extend([c.xmlnode for c in self.children])
+        _syncChildren(self.xmlnode, xmlnodes)
 
     @staticmethod
     def load(collada, node, localscope):
@@ -570,13 +562,7 @@ class GeometryNode(SceneNode):
             self.xmlnode.remove(bindnode)
             return
 
-        for m in self.materials:
-            if m.xmlnode not in matparent:
-                matparent.append(m.xmlnode)
-        xmlnodes = [m.xmlnode for m in self.materials]
-        for n in list(matparent):
-            if n not in xmlnodes:
-                matparent.remove(n)
+        _syncChildren(matparent, [m.xmlnode for m in self.materials])
 
     def __str__(self):
         return '<GeometryNode geometry=%s>' % (self.geometry.id,)
@@ -988,12 +974,7 @@ class Scene(DaeObject):
         self.xmlnode.set('id', self.id)
         for node in self.nodes:
             node.save()
-            if node.xmlnode not in self.xmlnode:
-                self.xmlnode.append(node.xmlnode)
-        xmlnodes = [n.xmlnode for n in self.nodes]
-        for node in list(self.xmlnode):
-            if node not in xmlnodes:
-                self.xmlnode.remove(node)
+        _syncChildren(self.xmlnode, [n.xmlnode for n in self.nodes])
 
     def __str__(self):
         return '<Scene id=%s nodes=%d>' % (self.id, len(self.nodes))
